@@ -259,6 +259,39 @@ def fam_unify(chk, tier):
                     chk.violation("elemwise over differently chunked operands raised " + type(e).__name__ + ": " + str(e)[:100], desc,
                                   signature={"fn": "unify_chunks_expr", "class": "raises"})
 
+    # targeted family (found by seeded change C17-2): on one index a much lighter operand holds the coarse layout, so the
+    # cost-aware pass refuses that merge and refines; on another index comparably heavy operands disagree, the merge is
+    # accepted, and only the size guard keeps blocks within the limit.
+    for it in range(400 if tier == "thorough" else 60):
+        ni, nj = rng.choice([16, 32, 64]), rng.choice([16, 32, 64])
+        fi, fj = rng.choice([2, 4]), rng.choice([2, 4, 8])
+        ci, cj = rng.choice([ni // 2, ni]), rng.choice([nj // 2, nj // 4 or 1])
+        if cj <= fj or ci <= fi:
+            continue
+        A = da.from_array(np.arange(ni * nj, dtype="f8").reshape(ni, nj), chunks=(fi, fj))
+        t = da.from_array(np.arange(ni, dtype="f8"), chunks=ci)
+        C = da.from_array(np.arange(ni * nj, dtype="f8").reshape(ni, nj) * 2, chunks=(fi, cj))
+        own = {id(A): largest_block_bytes(A), id(t): largest_block_bytes(t), id(C): largest_block_bytes(C)}
+        merged = 8 * fi * cj
+        limit = rng.choice([own[id(A)], (own[id(A)] + merged) // 2, merged - 8])
+        policy = rng.choice(["auto", "auto", "coarse"])
+        desc = {"operands": {"A": A.chunks, "t": t.chunks, "C": C.chunks}, "indices": ["ij", "i", "ij"], "policy": policy, "limit": limit}
+        chk.count("unify:cost-refusal-family")
+        chk.case(("unify-cost", ni, nj, fi, fj, ci, cj, policy, limit), nontrivial=True)
+        with dask.config.set({"array.unify-chunks-policy": policy, "array.unify-chunks-limit": limit}), warnings.catch_warnings():
+            warnings.simplefilter("ignore")
+            try:
+                chunkss, arrays, changed = unify_chunks_expr(A.expr, (0, 1), t.expr, (0,), C.expr, (0, 1), warn=False)
+            except ValueError:
+                continue
+            for o, a in zip((A, t, C), arrays):
+                new = largest_block_bytes(a)
+                if new > max(own[id(o)], limit):
+                    chk.violation(f"operand block grew from {own[id(o)]} to {new} bytes above unify-chunks-limit {limit}",
+                                  {**desc, "chosen": {int(k): v for k, v in chunkss.items()}},
+                                  signature={"fn": "unify_chunks_expr", "policy": policy})
+                    break
+
     # history axis (F5): lower x+y under one policy, then rebuild and lower under `refine`
     for it in range(60 if tier == "thorough" else 12):
         n = rng.choice([12, 24])
